@@ -622,10 +622,14 @@ class Engine:
             fv.oblige("no-raise@" + short, "site%d" % site, z3.Not(g), st, node)
             st.assume(z3.Not(g))
         # havoc what the callee may modify
+        writeback = []
         for m in cd.modifies:
             v = bound.get(m)
             for am in arrays_of(v):
                 if am.loc in fv.view_copies:
+                    if am.loc in getattr(fv, "view_col", {}) and not am.prefix:
+                        writeback.append(am)  # a column view a[:, j]: the callee's writes are copied back after the call
+                        continue
                     raise VerifError("a slice view is passed to %s in a position it may modify (views are read-only copies)" % cd.qualname)
             if isinstance(v, SArr):
                 fv.havoc_array(st, v)
@@ -653,6 +657,8 @@ class Engine:
                 st.assume(fv.to_bool(fv.ev(e, cs, False)))
         finally:
             fv.exists_mode = saved_mode
+        for am in writeback:
+            fv.write_back_column(st, am)
         pref = cd.options.get("ghost_prefix", short)
         for n, v in fv.skolems:
             st.env["%s_%s" % (pref, n)] = v
